@@ -72,6 +72,8 @@ struct DaemonScenario : Scenario {
   size_t tick_pos = std::string::npos, tick_end = 0; int tick_cnt = 0;
   bool catchall = false;         // control/virtualdomains also has a catch-all entry and an exception
   int held_ticks = 0, burned = 0;
+  int sigwait_held = 0;
+  bool sigwait = false, sigwait_done = false;   // option sigwait=1
   int hups_since_start = 0;
   bool clockback = false, clock_was_set_back = false;   // option clockback=1
   bool queue_refusals = false;   // option queuerefuse=1: the bounce's queue program may exit 31 / 53 (alternatives())
@@ -98,7 +100,7 @@ struct DaemonScenario : Scenario {
     while (i < ms.size()) { size_t j = ms.find('+', i); if (j == std::string::npos) j = ms.size(); std::string n = ms.substr(i, j - i); for (auto &x : cat) if (x.name == n) tosend.push_back(x); i = j + 1; }
     inject_mode = c.get("inject", "seq");
     conc_l = c.geti("concl", 2); conc_r = c.geti("concr", 2); announce = c.geti("announce", 120); lifetime = c.geti("lifetime", 604800);
-    catchall = c.geti("catchall", 0); hupedit = c.geti("hupedit", 0); queue_refusals = c.geti("queuerefuse", 0); clockback = c.geti("clockback", 0);
+    catchall = c.geti("catchall", 0); hupedit = c.geti("hupedit", 0); queue_refusals = c.geti("queuerefuse", 0); clockback = c.geti("clockback", 0); sigwait = c.geti("sigwait", 0);
     max_ticks = c.geti("maxticks", 60); max_restarts = c.geti("maxrestarts", 3); clock_frozen = c.geti("frozenclock", 0);
   }
   bool M(const char *m) { return mon.count(m) > 0; }
@@ -382,6 +384,7 @@ struct DaemonScenario : Scenario {
 
   // ------------------------------------------------------------------ step monitors
   void after_step(World &w, Proc &p, const Step &st) override {
+    if (st.sigraised == -1 && sigwait) { sigwait_done = true; sigwait_held = p.vpid; return; }   // the bounce's queue program has closed its descriptors but not exited yet; at the next quiescent point (the daemon now waits for it) a HUP arrives
     if (st.sigraised == SIGHUP && hupedit) { config_b = !config_b; write_routing_controls(w); history += config_b ? " EDIT+HUP-during-reread(far.example local, virt2.example virtual)" : " EDIT+HUP-during-reread(back)"; w.counters["control_edits"]++; w.counters["hup_during_reread"]++; return; }
     if (st.op == VK_WRITE && (st.tag == TAG_LCMD || st.tag == TAG_RCMD) && st.ret > 0) drain_commands(w, st.tag == TAG_LCMD ? 0 : 1);
     if (st.injected && st.err && p.vpid == sendpid) { markfifo[0].clear(); markfifo[1].clear(); mark_check_off = true; }   // a mark may not get written: alignment is lost
@@ -521,6 +524,8 @@ struct DaemonScenario : Scenario {
   }
   // ------------------------------------------------------------------ crash handling
   void alternatives(World &w, Proc &p, const Req &r, std::vector<Alt> &a) override {
+    // a HUP reaches the daemon while it waits for the queue program it started for a bounce (the wait is interrupted and must be taken up again)
+    if (sigwait && !sigwait_done && p.ppid == sendpid && sendpid && r.op == VK_EXIT && p.name.find("qmail-queue") != std::string::npos && w.ex->bound[BK_ENV] > 0) { a.push_back({BK_ENV, ALT_HOLD_EXIT, 0}); return; }
     // C10: a second edit + HUP lands while the daemon is still rereading its control files after the first one
     if (hupedit && hups_since_start > 0 && p.vpid == sendpid && r.op == VK_OPEN && r.data.compare(0, 8, "control/") == 0 && w.ex->bound[BK_ENV] > 0 && !p.in_handler) a.push_back({BK_ENV, ALT_SIGNAL, SIGHUP});
     // the queue program the daemon starts for a bounce (qmail-queue, or whatever QMAILQUEUE names) may refuse: permanently (31) or temporarily (53)
@@ -620,6 +625,7 @@ struct DaemonScenario : Scenario {
       // (a daemon that was told to exit deliberately stops looking at todo/; the next incarnation scans at start-up)
       for (auto &n : w.k.listdir("/var/qmail/queue/todo")) { w.violation("C16:lost-wakeup", "all processes are blocked, the injector of message " + n + " has finished, yet todo/" + n + " has not been picked up (the daemon will only notice it at the 25-minute rescan)"); return false; }
     }
+    if (sigwait_held) { Proc *sp = proc(w, sendpid), *c = proc(w, sigwait_held); if (sp && c) { w.raise_sig(*sp, SIGHUP); history += " HUP-while-waiting-for-the-bounce-injection"; w.counters["signals_during_wait"]++; } if (c) c->held = false; sigwait_held = 0; return true; }
     for (int c = 0; c < 2; c++) if (!pending_tail[c].empty() && rep[c]) { rep[c]->buf += pending_tail[c]; pending_tail[c].clear(); history += " (rest of the report arrives)"; return true; }
     quiescent_checks(w);
     if (w.aborted) return false;
